@@ -55,6 +55,12 @@ def run(ctx, module, theorems, variants, nq, nt, level, explanation, gen=None, g
         if sem["undef"] > 0:
             ctx.count("outside-fragment(non-two-valued)")
             continue
+        if P.get("tiny") and 0 < sem["z"] < 1e-9:
+            # evidence that is itself below the floating-point tolerances of the implementation: not this property
+            ctx.count("skipped(tiny evidence probability)")
+            continue
+        if P.get("tiny"):
+            ctx.count("with-tiny-probabilities")
         ctx.case(src + "#%d" % sd, nontrivial=len(sem["probs"]) > 0 and sem["nworlds"] > 1, n=len(runs))
         ctx.count("worlds<=%d" % (1 << max(0, (sem["nworlds"] - 1)).bit_length()))
         if P["evidence"]:
